@@ -135,7 +135,7 @@ func (w *writer) writeBitTiming(bitTime *BitTiming) {
 	w.print("%s:", getKeyword(keywordBitTiming))
 	defer w.newLine()
 
-	if bitTime.Baudrate == 0 {
+	if bitTime.Baudrate == 0 && bitTime.BitTimingReg1 == 0 && bitTime.BitTimingReg2 == 0 {
 		w.newLine()
 		return
 	}
